@@ -65,7 +65,7 @@ class ViewBase:
 
     @classmethod
     def set_dtype(cls, dtype):
-        cls._dtype = dtype
+        ViewBase._dtype = dtype
 
     def __init__(self, codes, lengths=None, step=None):
         if lengths is None:
